@@ -14,12 +14,14 @@
  *   (L3n, Q1n ...) gives the thread a name (options->name) | J<k> aws_thread_join | D<k> aws_thread_clean_up | A<i> register at-exit
  *   callback i | C print managed count | W aws_thread_join_all_managed | T<ns> set managed join timeout
  *   | Y yield (schedule point) | S<ns> aws_thread_current_sleep | O<id> aws_thread_call_once on flag id
- *   | I aws_common_library_init again (the library is initialised once before the first case)
+ *   | N aws_thread_current_name (prints whether it is the launch name) | X aws_common_library_clean_up (last action of
+ *   main; joins all managed threads) | I aws_common_library_init again (the library is initialised once before the first case)
  * output: P lines in execution order (see printf's below), then "P end ...", "W sched ...", "W ev ..." */
 #include "detsched.h"
 #include "h_common.h"
 #include <aws/common/private/thread_shared.h>
 #include <aws/common/byte_buf.h>
+#include <aws/common/string.h>
 #include <aws/common/thread.h>
 #include <errno.h>
 #include <stdlib.h>
@@ -67,6 +69,7 @@ static struct cbrec s_once_cbs[MAXONCE][2];
 static long s_fail_n = -1;
 static int s_fail_err;
 static uint64_t s_tick;
+static int s_lib_cycled; /* X was used in this case: put the library into a known initialised state afterwards */
 static long s_baseline_blocks;
 
 static void s_reset(void) {
@@ -178,7 +181,11 @@ static void s_run_actions(struct slot *s) {
                 int rc = aws_thread_join(&k->handle);
                 const char *rcn = hc_err(rc);
                 enum aws_thread_detach_state post = aws_thread_get_detach_state(&k->handle);
-                printf("P join s%d by=s%d rc=%s pre=%s post=%s\n", k->id, s->id, rcn, s_dstate(pre), s_dstate(post));
+                /* aws_thread_get_id of the handle must be the id the thread saw itself ("-": the thread has not started) */
+                const char *idc = !k->started ? "-"
+                                  : aws_thread_thread_id_equal(aws_thread_get_id(&k->handle), k->tid) ? "ok" : "BAD";
+                printf(
+                    "P join s%d by=s%d rc=%s pre=%s post=%s id=%s\n", k->id, s->id, rcn, s_dstate(pre), s_dstate(post), idc);
                 break;
             }
             case 'D': {
@@ -219,6 +226,21 @@ static void s_run_actions(struct slot *s) {
             case 'I':
                 aws_common_library_init(hc_allocator());
                 break;
+            case 'N': {
+                struct aws_string *nm = NULL;
+                int rc = aws_thread_current_name(hc_allocator(), &nm);
+                printf("P name s%d %s\n", s->id, (rc == AWS_OP_SUCCESS && nm && !strcmp(aws_string_c_str(nm), "c20-thread")) ? "c20-thread" : "other");
+                aws_string_destroy(nm);
+                break;
+            }
+            case 'X':
+                /* library shut-down: joins all managed threads (no timeout configured by the generator here) */
+                printf("P joinall begin s%d\n", s->id);
+                aws_common_library_clean_up();
+                aws_common_library_init(hc_allocator()); /* bring the error-name tables back for the rest of the case */
+                s_lib_cycled = 1;
+                printf("P joinall rc=OK\n");
+                break;
             case 'S':
                 aws_thread_current_sleep((uint64_t)a->a);
                 break;
@@ -236,7 +258,7 @@ static void s_main_fn(void *arg) {
 static int s_parse_actions(struct slot *s, char **t, int from, int n) {
     s->nacts = 0;
     for (int i = from; i < n; ++i) {
-        if (s->nacts == MAXACT || !strchr("LPQRJDACWTYSOI", t[i][0]) || t[i][0] == 0) {
+        if (s->nacts == MAXACT || !strchr("LPQRJDACWTYSOINX", t[i][0]) || t[i][0] == 0) {
             return 0;
         }
         struct act *a = &s->acts[s->nacts++];
@@ -322,6 +344,12 @@ int main(void) {
             s_slots[0].tid = aws_thread_current_thread_id();
             s_slots[0].started = 1;
             int rc = ds_run(s_main_fn, NULL);
+            if (s_lib_cycled && rc == 0) {
+                /* an init racing with the clean-up may have left the registration tables half done */
+                aws_common_library_clean_up();
+                aws_common_library_init(hc_allocator());
+                s_lib_cycled = 0;
+            }
             int over = 0;
             for (int i = 1; i < MAXSLOT; ++i) {
                 over += s_slots[i].started > 1;
